@@ -384,19 +384,38 @@ func c11Facts(fc *facts) {
 		}
 	}()
 
-	// NewTimerRegistry: the one `time.Unix(<int>, <int>)` every configured runner starts with
+	// NewTimerRegistry: the `time.Unix(<int>, <int>)` every configured runner's entry of the upstream map starts with
+	// (an assignment `<map>[<id>] = time.Unix(a, b)`), and the initial value of the registry's `watermark` field in the
+	// returned composite literal (`watermark: time.Unix(a, b)`; no such field = `time.Time{}`: regInitZero = 1)
 	func() {
-		const what = "NewTimerRegistry: exactly one time.Unix(<int>, <int>) as the initial upstream watermark"
+		const what = "NewTimerRegistry: exactly one `<map>[<id>] = time.Unix(<int>, <int>)` as the initial upstream watermark"
+		const whatW = "NewTimerRegistry: one `&TimerRegistry{...}` literal whose `watermark` field is absent or `time.Unix(<int>, <int>)`"
+		unixLit := func(e ast.Expr) (uint64, uint64, bool) {
+			c, ok := c11Unparen(e).(*ast.CallExpr)
+			if !ok || selName(c.Fun) != "time.Unix" || len(c.Args) != 2 {
+				return 0, 0, false
+			}
+			a, ok1 := litVal(c.Args[0])
+			b, ok2 := litVal(c.Args[1])
+			return a, b, ok1 && ok2
+		}
 		nr := findFunc(rf, "", "NewTimerRegistry")
 		var inits [][2]uint64
+		var lits []*ast.CompositeLit
 		if nr != nil {
 			ast.Inspect(nr, func(n ast.Node) bool {
-				c, ok := n.(*ast.CallExpr)
-				if ok && selName(c.Fun) == "time.Unix" && len(c.Args) == 2 {
-					a, ok1 := litVal(c.Args[0])
-					b, ok2 := litVal(c.Args[1])
-					if ok1 && ok2 {
-						inits = append(inits, [2]uint64{a, b})
+				switch x := n.(type) {
+				case *ast.AssignStmt:
+					if x.Tok == token.ASSIGN && len(x.Lhs) == 1 && len(x.Rhs) == 1 {
+						if _, isIdx := x.Lhs[0].(*ast.IndexExpr); isIdx {
+							if a, b, ok := unixLit(x.Rhs[0]); ok {
+								inits = append(inits, [2]uint64{a, b})
+							}
+						}
+					}
+				case *ast.CompositeLit:
+					if id, ok := x.Type.(*ast.Ident); ok && id.Name == "TimerRegistry" {
+						lits = append(lits, x)
 					}
 				}
 				return true
@@ -408,6 +427,40 @@ func c11Facts(fc *facts) {
 		} else {
 			fc.set("upstreamInitSec", 0, false, what)
 			fc.set("upstreamInitNsec", 0, false, what)
+		}
+		okW := false
+		if len(lits) == 1 {
+			var field ast.Expr
+			count := 0
+			for _, el := range lits[0].Elts {
+				if kv, ok := el.(*ast.KeyValueExpr); ok && selName(kv.Key) == "watermark" {
+					field = kv.Value
+					count++
+				}
+			}
+			if count == 0 {
+				fc.set("regInitZero", 1, true, "")
+				fc.set("regInitSec", 0, true, "")
+				fc.set("regInitNsec", 0, true, "")
+				okW = true
+			} else if count == 1 {
+				if a, b, ok := unixLit(field); ok {
+					fc.set("regInitZero", 0, true, "")
+					fc.set("regInitSec", a, true, "")
+					fc.set("regInitNsec", b, true, "")
+					okW = true
+				} else if cl, ok := c11Unparen(field).(*ast.CompositeLit); ok && selName(cl.Type) == "time.Time" && len(cl.Elts) == 0 {
+					fc.set("regInitZero", 1, true, "")
+					fc.set("regInitSec", 0, true, "")
+					fc.set("regInitNsec", 0, true, "")
+					okW = true
+				}
+			}
+		}
+		if !okW {
+			fc.set("regInitZero", 0, false, whatW)
+			fc.set("regInitSec", 0, false, whatW)
+			fc.set("regInitNsec", 0, false, whatW)
 		}
 	}()
 }
